@@ -257,6 +257,19 @@ def call(prob, cfg, kktsolver_obj=None):
     kkt = cfg.get('kkt')
     if kktsolver_obj is not None:
         kkt = kktsolver_obj
+    # how the option set reaches the solver: per call (options=..., the default) or through the global solvers.options with
+    # no options= keyword at all (cfg['via'] == 'global'); cfg['prelude'] = option set of a call made immediately before
+    # through the same entry point with per-call options (its result is discarded): the judged call must not inherit it
+    solvers.options.clear()
+    if cfg.get('prelude') is not None:
+        call(prob, dict(cfg, prelude=None, via=None, opts=cfg['prelude']))
+        if cfg.get('via') != 'global':
+            solvers.options.clear()          # (a leak into the globals is then only visible to the 'global' route)
+    okw = {'options': opts}
+    if cfg.get('via') == 'global':
+        for k_, v_ in opts.items():
+            solvers.options.setdefault(k_, v_)   # what a leaking prelude left behind stays in place
+        okw = {}
     try:
         if prob['entry'] == 'gp':
             Fm = matrix([prob['F'][i][j] for j in range(n) for i in range(len(prob['F']))], (len(prob['F']), n), 'd')
@@ -267,13 +280,13 @@ def call(prob, cfg, kktsolver_obj=None):
                 if d['q'] or d['s']:
                     raise AssertionError('gp accepts componentwise inequalities only')
                 kw = {'G': G, 'h': hm, 'A': A, 'b': bm}
-            sol = solvers.gp(list(prob['K']), Fm, cvx.dmat(prob['g']), kktsolver=kkt, options=opts, **kw)
+            sol = solvers.gp(list(prob['K']), Fm, cvx.dmat(prob['g']), kktsolver=kkt, **okw, **kw)
         else:
             F = make_F(prob, cfg, rec)
             if prob['entry'] == 'cp':
-                sol = solvers.cp(F, G, hm, dd, A, bm, kktsolver=kkt, options=opts)
+                sol = solvers.cp(F, G, hm, dd, A, bm, kktsolver=kkt, **okw)
             else:
-                sol = solvers.cpl(cvx.dmat(prob['c']), F, G, hm, dd, A, bm, kktsolver=kkt, options=opts)
+                sol = solvers.cpl(cvx.dmat(prob['c']), F, G, hm, dd, A, bm, kktsolver=kkt, **okw)
     except Exception as e:
         return e, rec
     return sol, rec
